@@ -64,7 +64,10 @@ func edifactHandleEOD(context *EncoderContext, buffer []byte) error {
 		}
 
 		available := context.GetSymbolInfo().GetDataCapacity() - context.GetCodewordCount()
-		remaining := context.GetRemainingCharacters()
+		// what is left goes out in ASCII encodation: count the codewords it takes there,
+		// not the characters (an extended character takes two, a digit pair one)
+		rest := context.GetMessage()[context.pos : context.pos+context.GetRemainingCharacters()]
+		remaining := asciiCodewordsNeeded(rest)
 		// The following two lines are a hack inspired by the 'fix' from https://sourceforge.net/p/barcode4j/svn/221/
 		if remaining > available {
 			e := context.UpdateSymbolInfoByLength(context.GetCodewordCount() + 1)
@@ -155,4 +158,20 @@ func edifactEncodeToCodewords(sb []byte) ([]byte, error) {
 		res = append(res, cw3)
 	}
 	return res, nil
+}
+
+// asciiCodewordsNeeded counts the codewords rest takes in ASCII encodation.
+func asciiCodewordsNeeded(rest []byte) int {
+	n := 0
+	for i := 0; i < len(rest); i++ {
+		if HighLevelEncoder_isExtendedASCII(rest[i]) {
+			n += 2
+		} else if HighLevelEncoder_isDigit(rest[i]) && i+1 < len(rest) && HighLevelEncoder_isDigit(rest[i+1]) {
+			n++
+			i++
+		} else {
+			n++
+		}
+	}
+	return n
 }
